@@ -118,6 +118,18 @@ def check_fmt(ctx):
         vals = [v for v in vals if isinstance(v, str)]
         if vals:
           accepted.setdefault((cur_key, unparse(n.left)), set()).update(vals)
+      # a look-up in a module-level table: `TABLE.get(value)` / `TABLE[value]` accepts the keys of the table
+      tbl_, arg_ = None, None
+      if isinstance(n, ast.Call) and isinstance(n.func, ast.Attribute) and n.func.attr == "get" and n.args and isinstance(n.func.value, (ast.Name, ast.Attribute, ast.Dict)) and unparse(n.func.value) != "cue_settings":
+        tbl_, arg_ = n.func.value, n.args[0]
+      elif isinstance(n, ast.Subscript) and isinstance(n.ctx, ast.Load) and isinstance(n.value, (ast.Name, ast.Attribute, ast.Dict)) and isinstance(n.slice, (ast.Name, ast.Attribute)):
+        tbl_, arg_ = n.value, n.slice
+      if tbl_ is not None and cur_key is not None and isinstance(arg_, (ast.Name, ast.Attribute)):
+        d_ = tbl_ if isinstance(tbl_, ast.Dict) else ix.deref(reader.module, tbl_, cls=reader.cls, func=reader)
+        if isinstance(d_, ast.Dict):
+          keys_ = [k_.value for k_ in d_.keys if isinstance(k_, ast.Constant) and isinstance(k_.value, str)]
+          if keys_:
+            accepted.setdefault((cur_key, unparse(arg_)), set()).update(keys_)
   ctx.floor("FMT", "cue-setting keys read by the WebVTT reader", len(reader_keys), 4)
   for k in ("vertical", "size", "align", "line", "position"):
     ctx.check(k in reader_keys, "TAB-settings", f"{reader.qualname}|cue setting `{k}` is read", ctx.where(reader.module, reader.node), "read",
@@ -141,6 +153,11 @@ def check_fmt(ctx):
       v = ce.try_ev(en.module, vexpr, en)
       vals.append(v)
     acc = accepted.get((setting, var), set())
+    if not acc:
+      acc = set().union(*[v_ for (k_, _var), v_ in accepted.items() if k_ == setting]) if any(k_ == setting for (k_, _v) in accepted) else set()
+    if not acc:
+      ctx.undecide("FMT", f"{reader.qualname}: the values the reader accepts for the `{setting}` setting are not compared with literals or looked up in a literal table")
+      continue
     for v in vals:
       ctx.check(v in acc, "FMT", f"ttconv.vtt.cue:VttCue.{enum_name}|{v}", ctx.where(en.module, en.node),
                 f"`{v}` is a value the reader accepts for `{setting}`",
